@@ -43,7 +43,7 @@ func init() {
 			Old: "\t\tif amount < headersPerPeer {\n\t\t\trequestSize = amount", New: "\t\tif headersPerPeer > amount {\n\t\t\trequestSize = amount"},
 		Variant{Prop: "C18", Name: "benign-loop-guard", File: se,
 			Old: "\tfor amount > uint64(0) {", New: "\tfor amount != 0 {"},
-			// the read side of the stream bounded by the request context (fourth seeding round)
+		// the read side of the stream bounded by the request context (fourth seeding round)
 		Variant{Prop: "C18", Name: "seed-only-the-write-deadline-set", File: "p2p/helpers.go", Expect: "C18.e",
 			Old: "\t\tif err = stream.SetDeadline(dl); err != nil {", New: "\t\tif err = stream.SetWriteDeadline(dl); err != nil {"},
 		Variant{Prop: "C18", Name: "stream-deadline-after-the-reads", File: "p2p/helpers.go", Expect: "C18.e",
